@@ -254,6 +254,7 @@ PROPS['C09']['units'].append({'template': 'limits.rs', 'rlimit': 30, 'items': [r
 # the functional clauses of these units belong to C03 / C04 / C06 / C07
 _NOT_PANIC = [r'::ensures\.', r'::loop\d+\.', r'::closure\d+\.', r'no_shadow']
 PROPS['C09']['units'].append({'template': 'expr.rs', 'rlimit': 30, 'items': [r'^datalog::expression::', r'^token::builder::expression::'], 'exclude_obligations': _NOT_PANIC, 'quick_canaries': ['display-unwrap']})
+PROPS['C09']['units'].append({'template': 'srcconv.rs', 'rlimit': 30, 'items': [r'^token::builder::scope::']})
 PROPS['C09']['units'].append({'template': 'loadb.rs', 'rlimit': 30, 'items': _LOADB['items'], 'exclude_obligations': _NOT_PANIC, 'quick_canaries': []})
 PROPS['C09']['units'].append({'template': 'authz.rs', 'rlimit': 60, 'items': [r'^token::authorizer::Authorizer::(authorize_inner|query_inner|query_all_inner)$'], 'exclude_obligations': _NOT_PANIC, 'quick_canaries': []})
 PROPS['C09']['proved'] += (' Also: Unary / Binary::evaluate (scalar arms), Binary::evaluate_with_closure, Expression::evaluate, Expression::print and the builder-level Display of an expression (Authorizer::dump_code) for every operation sequence (no pop / remove / index / division side condition can fail); '
@@ -303,6 +304,7 @@ WITNESS = {
     r'datalog::World::run_with_limits::loop0\.ok_facts_initial': 'tools/replay.sh facts_over_budget_at_start',
     r'Authorizer::authorize::arith': 'tools/replay.sh snapshot_iteration_underflow',
     r'World::run_with_limits::arith\[self.iterations': 'tools/replay.sh snapshot_iteration_overflow',
+    r'token::builder::scope::Scope::From::from::': 'tools/replay.sh datalog_source_short_key',
     r'token::builder::expression::Expression::Display::fmt::': 'tools/replay.sh dump_malformed_expression',
     r'Expression::evaluate::call-pre\(datalog::expression::Binary::evaluate_with_closure::requires.no_shadow': 'tools/replay.sh closure_shadowing',
     r'biscuit-capi::lib::(BiscuitBuilder|BlockBuilder)::add_\w+::ensures\.handle': 'tools/replay.sh capi_builder_after_error',
